@@ -258,6 +258,12 @@ def sigma(n, f, lo=0):
     return Sigma.make(n, f, lo=lo)
 
 
+def sum_value(s):
+    """the value of a real Sigma-term as a scalar (an atom shared by alpha-equivalent sums), for use as a factor or divisor"""
+    from .symarr import sigma_atom
+    return sigma_atom(s) if isinstance(s, Sigma) else s
+
+
 def elem(a, *i):
     """element of an array-like at index tuple"""
     if isinstance(a, SArr):
